@@ -152,6 +152,13 @@ Definition trim_ext (b : string) : string := take (String.length b - String.leng
 (* jsondb.prefix: TrimSuffix(Base(dagFile), Ext(dagFile)) *)
 Definition prefix_of (dagfile : string) : string := trim_ext (base dagfile).
 
+(* util.AddYamlExtension (fe0ec16): .yaml stays, .yml becomes .yaml, anything else (no or a foreign suffix) gets .yaml appended *)
+Definition add_yaml (f : string) : string :=
+  let e := ext (base f) in
+  if String.eqb e ".yaml" then f
+  else if String.eqb e ".yml" then take (String.length f - 4) f ++ ".yaml"
+  else f ++ ".yaml".
+
 Fixpoint prefixb (p s : string) : bool :=
   match p, s with
   | "", _ => true
@@ -469,7 +476,9 @@ Definition prims (o : op) (h : hstate) : list prim :=
                            ++ map (fun c => PAppend dir fn c now) (chunks_of {| p_req := req; p_tag := tag; p_size := size |})
       | _ => []
       end
-  | ORename d d' =>
+  | ORename d0 d0' =>
+      (* jsondb.Rename works on AddYamlExtension of both names *)
+      let d := add_yaml d0 in let d' := add_yaml d0' in
       if has_dir st (dirname d) then
         match glob st (dirpat d) (pat_all d) with
         | GErr => [PMkdir (dirname d')]                       (* the pattern error is returned after MkdirAll *)
